@@ -13,9 +13,14 @@ from . import tlc, evidence, findings
 
 def run_case(nvoters, F, seed, steps=120):
     from . import simcluster as sc
+    import pysyncobj.pickle as sopickle
     rng = random.Random(seed)
     ids = ['a', 'b', 'c', 'd', 'e'][:nvoters]
-    cl = sc.Cluster({'voters': ids, 'init_connected': True, 'period': 10.0, 'fallback': float(F)})
+    memb = nvoters >= 3 and rng.random() < 0.4
+    cfg = {'voters': ids, 'init_connected': True, 'period': 10.0, 'fallback': float(F)}
+    if memb:
+        cfg['membership'] = True
+    cl = sc.Cluster(cfg)
     trace = []
     try:
         def drain():
@@ -31,21 +36,47 @@ def run_case(nvoters, F, seed, steps=120):
         drain()
         L = cl.nodes['a']
         t0 = L.clock
+        acks = {}          # cid -> observation index at submission
+        seen_acks = set()
 
-        def obs(kind):
+        def obs(kind, **extra):
             o = L.obj
             g = lambda name: getattr(o, '_SyncObj__' + name)
-            trace.append({'a': kind, 'now': int(round(L.clock - t0)), 'role': 'L' if o._isLeader() else 'F',
-                          'last': {n.id: int(round(t - t0)) for n, t in g('lastResponseTime').items()},
-                          'hq': bool(o.hasQuorum), 'conn': sorted(n.id for n in g('connectedNodes')),
-                          'others': sorted(n.id for n in g('otherNodes'))})
+            others = sorted(n.id for n in g('otherNodes'))
+            rec = {'a': kind, 'now': int(round(L.clock - t0)), 'role': 'L' if o._isLeader() else 'F',
+                   'last': {n.id: int(round(t - t0)) for n, t in g('lastResponseTime').items()},
+                   'hq': bool(o.hasQuorum), 'conn': sorted(n.id for n in g('connectedNodes')),
+                   # ground truth of the connections, from the network (not from the node's own bookkeeping)
+                   'up': sorted(f for f in others if ('a', f) in cl.net.up),
+                   'others': others}
+            rec.update(extra)
+            trace.append(rec)
+            # SUCCESS callbacks of commands accepted by this leader
+            for cid, outs in list(cl.rec.cbs.items()):
+                if cid in acks and cid not in seen_acks and any(o_[1] == 0 for o_ in outs):
+                    seen_acks.add(cid)
+                    r2 = dict(rec, a='Ack', subL=acks[cid])
+                    trace.append(r2)
+
+        def deliver_to_leader(f):
+            q = cl.net.chan.get((f, 'a')) or []
+            mt = '?'
+            try:
+                d = q[0].data
+                mt = 'hello' if d == sc.HELLO else str(sopickle.loads(d).get('type'))
+            except Exception:
+                pass
+            cl.step(('Deliver', f, 'a'))
+            obs('Reply', **{'from': f, 'mt': mt})
         obs('Init')
         cut = set()
+        removed = None
+        ncmd = 0
         for _ in range(steps):
             r = rng.random()
             if not L.obj._isLeader():
                 break
-            if r < 0.45:
+            if r < 0.42:
                 dt = rng.choice([0, 3, 3, 5, 10, 10, 11, 12] + ([20, 30, F - 1, F, F + 1] if rng.random() < 0.25 else []))
                 cl.step(('Tick', 'a', str(int(dt))))
                 obs('Tick')
@@ -58,32 +89,43 @@ def run_case(nvoters, F, seed, steps=120):
                             cl.step(('Deliver', 'a', f))
                         if rng.random() < 0.6:
                             while cl.applicable(('Deliver', f, 'a')) and L.obj._isLeader():
-                                cl.step(('Deliver', f, 'a'))
-                                obs('Reply')
-            elif r < 0.75:
+                                deliver_to_leader(f)
+            elif r < 0.68:
                 f = rng.choice(ids[1:])
                 if f not in cut and cl.applicable(('Deliver', f, 'a')):
-                    cl.step(('Deliver', f, 'a'))
-                    obs('Reply')
-            elif r < 0.85:
+                    deliver_to_leader(f)
+            elif r < 0.76:
                 f = rng.choice(ids[1:])
                 cut.add(f)
                 cl.net.chan[(f, 'a')] = []
-            elif r < 0.92:
+            elif r < 0.82:
                 f = rng.choice(ids[1:])
                 cut.discard(f)
-            elif r < 0.96:
+            elif r < 0.87:
                 f = rng.choice(ids[1:])
                 for act in (('Break', 'a', f), ('Notice', 'a', f)):
                     if cl.applicable(act):
                         cl.step(act)
                 obs('Net')
-            else:
+            elif r < 0.93:
+                # the link comes back (for a cut-off follower: half-open - nothing it says gets through)
                 f = rng.choice(ids[1:])
                 for act in (('Connect', 'a', f), ('Deliver', 'a', f)):
                     if cl.applicable(act):
                         cl.step(act)
+                if f in cut:
+                    cl.net.chan[(f, 'a')] = []
                 obs('Net')
+            elif r < 0.97:
+                ncmd += 1
+                cid = 'c%d' % ncmd
+                acks[cid] = len(trace)
+                cl.step(('Submit', 'a', cid, {'kind': 'op'}))
+                obs('Sub')
+            elif memb and removed is None:
+                removed = rng.choice(ids[1:])
+                cl.step(('Submit', 'a', 'm1', {'kind': 'rem', 'x': removed}))
+                obs('Sub')
         return {'f': int(F), 'n': nvoters, 'steps': trace}
     finally:
         cl.close()
